@@ -1,6 +1,6 @@
 """C18 - ed-style patch scripts are applied exactly; malformed scripts raise ValueError.
 
-Two kinds of cases (all lines are str ending in one "\\n"; bytes runs encode them as UTF-8):
+Three kinds of cases (all lines are str ending in one "\\n"; bytes runs encode them as UTF-8):
 
   {"kind": "pair", "old": [...], "new": [...], "differ": "lcs" | "difflib" | "diff-e",
    "style": 0..7, "bytes": bool, "form": "list" | "iter" | "gen" | "tuple"}
@@ -11,6 +11,15 @@ Two kinds of cases (all lines are str ending in one "\\n"; bytes runs encode the
   {"kind": "corrupt", ...same fields..., "cmd": k, "how": [class, variant]}
       the same script with exactly one defect put into its k-th command (k modulo the number of
       commands; classes in CORRUPTIONS); consuming patches_from_ed_script must raise ValueError.
+      The class "empty-string" puts "" / b"" (an element without any terminator, as
+      text.split("\\n") or a blanked list element leaves it) where a command is expected.
+
+  {"kind": "big", "n", "uniq", "phase", "step", "count", "ops", "end", "differ", "style", "bytes", "form"}
+      a compact description of a long file (up to a few thousand lines) with ``count`` scattered
+      edits, expanded by model/c18_eddiff.big_pair into (old, new) and the hunks it was built from;
+      then checked exactly like a pair case.  differ "plan" emits the script from those hunks
+      (also used instead of "lcs" when the quadratic LCS table would exceed LCS_CELLS).  These
+      are the only cases whose scripts have more than ~20 commands (24 .. 4100 edits).
 """
 import itertools
 
@@ -28,10 +37,16 @@ RULE = ("pair cases: (old, new) line lists, new derived from old by 0..4 hunks (
         "terminator included, never a lone '.'), script from the harness's LCS differ / difflib / "
         "diff -e in 8 spellings, run as str and as UTF-8 bytes, script passed as list / iterator / "
         "generator / tuple; enumerated: every pair of lists of <=3 (quick) / <=4 (thorough) lines "
-        "over 3 symbols x 2 differs x 8 spellings x str/bytes.  corrupt cases: one command of such "
+        "over 3 symbols x 2 differs x 8 spellings x str/bytes.  big cases: files of 60..1000 (Hypothesis) / up to "
+        "16400 (enumerated) lines 'l<i>' with 24..230 (Hypothesis) / 31..1030 (quick) / 31..4100 (thorough) "
+        "edits every 1..5 lines (delete 1-2, insert 1 or 3, change 1->1, 2->1, 1->2; inserted text includes "
+        "look-alikes of commands and terminators; optional edit at line 0 and append after the last line; "
+        "uniq 13 / 97 makes old lines repeat), script from lcs / difflib / the build plan / diff -e in 8 "
+        "spellings, str and bytes, 4 script forms.  corrupt cases: one command of such "
         "a script damaged (class x variant x position; classes: letter, missing letter / number, "
         "leading / trailing garbage, bad address syntax, non-ASCII decimal digit, N,Ma, text block "
-        "cut off at the end of the script).  Non-trivial pair = script with >=2 "
+        "cut off at the end of the script, empty string '' / b'' instead of / before / after the "
+        "command).  Non-trivial pair = script with >=2 "
         "commands, or a command touching the first line / position 0 or the last line of the "
         "buffer it is applied to; non-trivial corruption = the damaged command is not the only "
         "command, or the defect is an unterminated text block; distinct = distinct canonical JSON")
@@ -41,14 +56,23 @@ ASSUMPTIONS = [
     "GNU diff -e as second script source when /usr/bin/diff exists (label diff-e-unavailable otherwise)",
     "lines are '\\n'-terminated and none is a lone '.', which plain a/c/d scripts cannot carry",
     "only syntactic defects count as malformed (0c, reversed ranges, addresses past EOF are not generated)",
+    "an empty string element where a command is expected is a malformed command (it matches no a/c/d "
+    "syntax); the library's treatment of '' inside a text block is not asserted",
+    "big cases: the pair and its hunks come from a deterministic expansion of the description "
+    "(model/c18_eddiff.big_pair); hunks and script are self-checked against the ed model before use",
     "Hypothesis 6.168 generators; sha1 for distinctness",
 ]
 EXHAUSTIVE = {
     "quick": "all (old, new) with <=3 lines each over {a, b, ..} x {lcs, difflib} x 8 spellings x {str, bytes}; "
-             "all corruption class/variant/position combinations over 10 fixed scripts",
+             "all corruption class/variant/position combinations over 10 fixed scripts; big pairs with "
+             "31, 32, 33, 34, 64, 65, 100, 129, 200, 257, 520, 1030 edits x 3 mixes x differs x {str, bytes}",
     "thorough": "all (old, new) with <=4 lines each over {a, b, ..} x {lcs, difflib} x 8 spellings x {str, bytes}; "
-                "all corruption class/variant/position combinations over 10 fixed scripts",
+                "all corruption class/variant/position combinations over 10 fixed scripts; big pairs with "
+                "31 .. 4100 edits (around every power of two from 32 to 4096) x 3 mixes x differs x {str, bytes}",
 }
+EXHAUSTIVE_BIG = ("long files (2..4 lines per edit) with N scattered edits, N around 32, 64, 128 .. (BIG_COUNTS) x "
+                  "3 edit mixes x {lcs (N <= 200), difflib (N <= 1100), build plan, diff -e} x {str, bytes}; spelling and "
+                  "script form cycle")
 BUDGET = {"quick": 150, "thorough": 1500}
 
 POOL = ["a\n", "b\n", "c\n", "..\n", " .\n", ". \n", "1a\n", "2,3d\n", "\n", "é\n", ".x\n"]
@@ -74,7 +98,12 @@ CORRUPTIONS = {
     "non-ascii-digit": 6,      # a decimal digit of another script in the address
     "unterminated-end": 3,
     "unterminated-dropdot": 1,
+    # an empty string (no terminator at all: what text.split("\n") leaves behind, or a blanked
+    # list element) standing where a command is expected: instead of the command line, before
+    # it, or after the command (after its text block; for the last command: at the end)
+    "empty-string": 3,
 }
+LCS_CELLS = 500000      # the longhand LCS table is quadratic: bigger pairs use their build plan
 
 
 # ------------------------------------------------------------------------------------------
@@ -87,10 +116,13 @@ def valid_lines(lines):
                 and "\r" not in l for l in lines))
 
 
-def build_script(case):
-    """-> (script, labels) from the case by the requested differ."""
+def build_script(case, plan=None):
+    """-> (script, labels) from the case by the requested differ ("plan": the hunks the pair was
+    built from, big cases only)."""
     old, new = case["old"], case["new"]
     differ = case.get("differ", "lcs")
+    if plan is not None and (differ == "plan" or (differ == "lcs" and len(old) * len(new) > LCS_CELLS)):
+        return ed.emit_plan(old, new, plan, int(case.get("style", 0)) & 7), ["differ:plan"]
     if differ == "diff-e":
         script = ed.diff_e(old, new)
         if script is None:
@@ -125,9 +157,18 @@ def cmd_class(c):
 # oracle: application
 
 
-def check_pair(case):
+def check_big(case):
+    """Expand the compact description and treat the result like any other pair."""
+    old, new, plan = ed.big_pair(case)
+    if not valid_lines(old) or not valid_lines(new):
+        raise ed.ModelError("big_pair produced invalid lines")
+    nontrivial, labels = check_pair(dict(case, kind="pair", old=old, new=new), plan)
+    return nontrivial, sorted(set(labels) - {"kind:pair"} | {"kind:big"})
+
+
+def check_pair(case, plan=None):
     old, new = case["old"], case["new"]
-    script, labels = build_script(case)
+    script, labels = build_script(case, plan)
     cmds = ed.parse_script(script)
     model, steps = ed.apply_commands(old, cmds)
     if model != new:
@@ -162,6 +203,7 @@ def check_pair(case):
     # coverage labels
     labels += ["kind:pair", "bytes" if case.get("bytes") else "str", "form:" + form,
                "commands:%s" % (len(cmds) if len(cmds) < 4 else "4+")]
+    labels += ["commands>%d" % b for b in (8, 16, 32, 64, 128, 256, 512, 1024) if len(cmds) > b]
     edge = False
     for c, (first, last, text, before) in zip(cmds, steps):
         labels.append("cmd:" + cmd_class(c))
@@ -195,8 +237,9 @@ def check_pair(case):
         labels.append("old-empty")
     if not new:
         labels.append("new-empty")
-    if max(len(old), len(new)) >= 10:
-        labels.append("two-digit-addresses")
+    for digits, name in ((2, "two"), (3, "three"), (4, "four")):
+        if max(len(old), len(new)) >= 10 ** (digits - 1):
+            labels.append(name + "-digit-addresses")
     labels = sorted(set(labels))
     return (len(cmds) >= 2 or edge, labels)
 
@@ -267,6 +310,11 @@ def corrupt(script, cmds, k, cls, var):
     elif cls == "range-append":
         n = c["n1"]
         s[at] = ["%d,%da\n" % (n, n), "%d,%da\n" % (max(n - 1, 0), n)][var % 2]
+    elif cls == "empty-string":
+        if var % 3 == 0:
+            s[at] = ""
+        else:
+            s.insert(at if var % 3 == 1 else (at + 1 if c["dot"] is None else c["dot"] + 1), "")
     elif cls == "unterminated-end":
         # the script stops inside the text block: all text, part of it, or right after the command
         keep = [len(c["text"]), len(c["text"]) // 2, 0][var % 3]
@@ -279,7 +327,11 @@ def corrupt(script, cmds, k, cls, var):
         return None, "unknown-class"
     if s == script:
         return None, "no-change"
-    info = ["corrupt-cmd:first" if at == 0 else "corrupt-cmd:later"]
+    info = ["corrupt-cmd:first" if at == 0 else "corrupt-cmd:last" if c is cmds[-1] else "corrupt-cmd:middle"]
+    if cls == "empty-string":
+        info.append("empty-string:" + ["replaces-command", "before-command", "after-command"][var % 3])
+        if s[-1] == "":
+            info.append("empty-string-ends-script")
     if cls == "unterminated-end" and len(s) == at + 1:
         info.append("unterminated-empty-block")
     return s, info
@@ -319,6 +371,8 @@ def check_corrupt(case):
 
 
 def check(case):
+    if isinstance(case, dict) and case.get("kind") == "big":
+        return check_big(case)
     if not isinstance(case, dict) or not valid_lines(case.get("old")) or not valid_lines(case.get("new")):
         return (False, ("invalid-case-skipped",))
     if case.get("kind") == "corrupt":
@@ -380,6 +434,48 @@ def gen_corrupt(draw):
     return case
 
 
+@st.composite
+def gen_big(draw):
+    """A few hundred lines with 24..230 scattered edits (mostly more than 32 hunks)."""
+    count = draw(st.one_of(st.integers(33, 230), st.sampled_from([24, 31, 32, 33, 34, 63, 64, 65, 66, 127, 128, 129, 130])))
+    step = draw(st.sampled_from([1, 2, 2, 3, 3, 3, 4, 5]))
+    phase = draw(st.integers(0, 4))
+    tail = draw(st.sampled_from([0, 0, 1, 2, 7, 40]))
+    return {"kind": "big", "n": min(phase + count * step + tail - draw(st.integers(0, 1)), 1000),
+            "uniq": draw(st.sampled_from([1000000, 1000000, 1000000, 97, 13])),
+            "phase": phase, "step": step, "count": count,
+            "ops": draw(st.lists(st.integers(0, 6), min_size=1, max_size=6)),
+            "end": draw(st.booleans()),
+            "differ": draw(st.sampled_from(["lcs", "difflib", "plan", "diff-e"])),
+            "style": draw(st.integers(0, 7)), "bytes": draw(st.booleans()),
+            "form": draw(st.sampled_from(FORMS))}
+
+
+BIG_COUNTS = {"quick": (31, 32, 33, 34, 64, 65, 100, 129, 200, 257, 520, 1030),
+              "thorough": (31, 32, 33, 34, 63, 64, 65, 66, 96, 97, 100, 128, 129, 130, 200, 256, 257, 258,
+                           512, 513, 1024, 1025, 2049, 4100)}
+BIG_OPS = ([0, 1, 2, 3, 4, 5, 6], [2], [1, 0])
+
+
+def enum_big(tier):
+    """Edit counts around powers of two x edit mix x differ x str/bytes; spelling and form cycle."""
+    def gen():
+        k = 0
+        for count in BIG_COUNTS[tier]:
+            for ops in BIG_OPS:
+                for differ in ("lcs", "difflib", "plan", "diff-e"):
+                    if (differ == "lcs" and count > 200) or (differ == "difflib" and count > 1100):
+                        continue        # lcs would fall back to the plan anyway; difflib gets slow
+                    for b in (False, True):
+                        k += 1
+                        step = 2 + k % 3
+                        yield {"kind": "big", "n": count * step + (k % 5), "uniq": 1000000,
+                               "phase": k % 2, "step": step, "count": count, "ops": ops,
+                               "end": k % 4 < 2, "differ": differ, "style": k % 8, "bytes": b,
+                               "form": FORMS[(k // 2) % 4]}
+    return gen
+
+
 SYMS = ["a\n", "b\n", "..\n"]
 
 
@@ -432,11 +528,15 @@ def sources(tier):
     if tier == "quick":
         return [Enum("pairs<=3", enum_pairs(3), EXHAUSTIVE["quick"]),
                 Enum("corruptions-fixed", enum_corruptions, "class x variant x command over 10 fixed pairs"),
+                Enum("big-pairs", enum_big("quick"), EXHAUSTIVE_BIG),
                 Hyp("pairs", gen_pair(), 700, shards=8),
                 Hyp("corruptions", gen_corrupt(), 250, shards=6),
-                Hyp("diff-e", diff_pairs, 150, shards=2)]
+                Hyp("diff-e", diff_pairs, 150, shards=2),
+                Hyp("big", gen_big(), 25, shards=4)]
     return [Enum("pairs<=4", enum_pairs(4), EXHAUSTIVE["thorough"]),
             Enum("corruptions-fixed", enum_corruptions, "class x variant x command over 10 fixed pairs"),
+            Enum("big-pairs", enum_big("thorough"), EXHAUSTIVE_BIG),
             Hyp("pairs", gen_pair(), 15000, shards=16),
             Hyp("corruptions", gen_corrupt(), 2500, shards=16),
-            Hyp("diff-e", diff_pairs, 250, shards=8)]
+            Hyp("diff-e", diff_pairs, 250, shards=8),
+            Hyp("big", gen_big(), 150, shards=16)]
